@@ -36,7 +36,12 @@ def Henry_H_at_T(T, H, Tderiv, T0=None, units=None, backend=None):
         K = units.Kelvin
     if T0 is None:
         T0 = 298.15 * K
-    return H * be.exp(Tderiv * (1 / T - 1 / T0))
+    exponent = Tderiv * (1 / T - 1 / T0)
+    if units is not None:
+        from .units import to_unitless
+
+        exponent = to_unitless(exponent)  # pure number also when T is not given in kelvin
+    return H * be.exp(exponent)
 
 
 class Henry(defaultnamedtuple("Henry", "Hcp Tderiv T0 ref", [None, None])):
